@@ -30,7 +30,7 @@ Rd == [pan |-> St.pan, epan |-> St.epan, channel |-> St.channel, mask |-> St.mas
 Order == <<"clearKeyTable">> \o (IF CanCounters(ver) THEN <<"setValue:VALUE_NWK_FRAME_COUNTER", "setValue:VALUE_APS_FRAME_COUNTER">> ELSE <<>>)
          \o <<"setInitialSecurityState">> \o [i \in 1 .. nkeys |-> IF ver >= 13 THEN "importLinkKey" ELSE "addOrUpdateKeyTableEntry"]
          \o (IF CanChildren(ver) THEN [i \in 1 .. nchildren |-> "setChildData"] ELSE <<>>) \o <<"formNetwork">>
-Run == [ver |-> ver, w |-> W, sec |-> Sec, st |-> St, r |-> Rd, order |-> Order, completed |-> 1, second |-> 0, r2children |-> <<>>, st2children |-> <<>>]
+Run == [ver |-> ver, w |-> W, sec |-> Sec, st |-> St, r |-> Rd, order |-> Order, completed |-> 1, second |-> 0, r2children |-> <<>>, st2children |-> <<>>, overlap |-> 0, ro |-> <<>>]
 Satisfiable == Violated(Run) = {}
 (* dropping the link keys or writing the counters after forming is caught *)
 LostKeysCaught == nkeys > 0 => "RoundTrip" \in Violated([Run EXCEPT !.r.linkKeys = <<>>])
